@@ -2,5 +2,5 @@
     sumbool, sumor and the andb/orb inlinings.  N, positive, nat, byte, ascii, string stay the
     Coq inductives.  Run with coqc from the output directory (ocaml/gen). *)
 Require Import ExtrOcamlBasic.
-From PatVerif Require Import Model.Dispatch.
-Extraction "model.ml" dispatch.
+From PatVerif Require Import Model.Dispatch Model.Dispatch2.
+Extraction "model.ml" dispatch dispatch2.
